@@ -281,6 +281,26 @@ check('C11', 'model_checking',
       'stratified calibration decided by TLC',
       'tlc-data')
 
+check('C09', 'model_checking',
+      'C09_Data.tla: (1) for small toric / planar / rotated planar lattices '
+      'and noise models with marginals < 1/2 (uniform, pure, biased, '
+      'XZZX-deformed on each axis, several rates) the matching decoder\'s '
+      'correction for every valid syndrome is compared per sector with the '
+      'minimum cost over the full coset of solutions, which TLC computes by '
+      'dynamic programming over qubits; (2) every Pauli error of weight <= '
+      'floor((d-1)/2) (all supports and X/Y/Z assignments; TLC also checks '
+      'the errors are the whole domain) must leave a stabilizer residual '
+      'under matching (three lattice families) and union-find (toric); (3) '
+      'every single-qubit error under the sweep-match decoders on their home '
+      'lattices with d >= 3.',
+      'DESIGN.md 4/C09',
+      'Trusted: TLC; integer scaling of the float weights (slack n+1 units '
+      'of 1e-4 covers rounding and PyMatching discretisation); C01. Recorded '
+      'finding: rotated sweep-match on one-layer slabs.',
+      'TLA+ coset-minimum by dynamic programming + domain-covering '
+      'enumeration, both evaluated by TLC on recorded decodes',
+      'tlc-data')
+
 
 def build():
     checks = []
